@@ -22,6 +22,7 @@ EXPLANATION = (
     "the constraint, certainly true as well as not possibly true, and means 'enforce the constraint'."
     " Added after seed round 6: KB6 also folds the allocation of the indicator variable: with 7 variables in use it is the fresh variable 8."
     " Added after seed round 7: KB7 from_partial filters decided atoms by parity, sign and presence in the weight table only."
+    " Added after seed round 8: KB8 a Border works on a complete private copy of the CNF, constraints included."
 )
 TECHNIQUE = "static analysis: decision table of KBestEvaluator.evaluate's exits, literal/weight sign pairing and polarity pairing patterns"
 LEVEL_TEXT = EXPLANATION
